@@ -11,6 +11,7 @@ import sqlite3
 import uuid
 from contextlib import asynccontextmanager
 from datetime import datetime, timezone
+from collections.abc import MutableMapping
 from typing import Any, AsyncGenerator, Generic, Literal
 
 from pydantic import BaseModel
@@ -60,7 +61,9 @@ class SqliteStateStore(Generic[MODEL_T]):
         state_type: type[MODEL_T] | None = None,
         serializer: BaseSerializer | None = None,
         connection: sqlite3.Connection | None = None,
+        run_locks: MutableMapping[str, asyncio.Lock] | None = None,
     ) -> None:
+        self._run_locks = run_locks
         self._db_path = db_path
         self._run_id = run_id
         self.state_type = state_type or DictState  # type: ignore[assignment]  # ty: ignore[invalid-assignment]
@@ -73,8 +76,19 @@ class SqliteStateStore(Generic[MODEL_T]):
 
     @functools.cached_property
     def _lock(self) -> asyncio.Lock:
-        """Lazy lock initialization for Python 3.14+ compatibility."""
-        return asyncio.Lock()
+        """Lazy lock initialization for Python 3.14+ compatibility.
+
+        When the workflow store provides ``run_locks``, every store object of
+        the same run shares one lock (each step invocation gets its own store
+        object, so a per-object lock would not serialize their edits).
+        """
+        if self._run_locks is None:
+            return asyncio.Lock()
+        lock = self._run_locks.get(self._run_id)
+        if lock is None:
+            lock = asyncio.Lock()
+            self._run_locks[self._run_id] = lock
+        return lock
 
     def _connect(self) -> sqlite3.Connection:
         if self._shared_conn is not None:
